@@ -10,6 +10,29 @@ NOTE = ("trusted base: clang 14 front end + constant evaluator, /verif/tools/ada
 
 CLAIMED = {
     # id: (category, text, technique, design_ref, extra level_note)
+    "C01": ("other",
+            "Decides the table/shortcut clauses of the property exhaustively: byte-domain abstract interpretation of the "
+            "fast path's four scanning loops shows every byte it copies verbatim is a byte the general parser leaves "
+            "unchanged; path-signature, forbidden host/domain, scheme-character, delimiter and special-scheme tables "
+            "(incl. the perfect hash) equal the Standard's sets for all 256 bytes; the parser's state switch is "
+            "exhaustive. The transition logic for every string is a value-level matter and is not decided.",
+            "table algebra + byte-domain abstract interpretation of scanning loops + CFG state-machine graph",
+            "DESIGN.md §5 C01", "partial: table/shortcut agreement only"),
+    "C03": ("other",
+            "Decides failure atomicity as a path property: a typestate fixpoint over the CFG of each of the 24 setter "
+            "bodies (callee effects from summaries of their own CFGs, restores modelled exactly, boolean results "
+            "tracked) shows every exit that reports failure is reached with every written field restored. That a "
+            "successful setter produces the Standard's state is value-level and not decided.",
+            "typestate dataflow over per-instantiation CFGs with interprocedural summaries",
+            "DESIGN.md §5 C03", "partial: the 'fails atomically' sentence"),
+    "C09": ("other",
+            "Must-pass-through property decided on every CFG path: each success-capable exit of the parser (both URL "
+            "types) and each success exit of the 24 setter bodies is behind the 'fits' edge of a size-vs-limit "
+            "comparison with no growth-capable mutation in between; over-limit edges restore and fail; every limit "
+            "comparison is strict; URLs are produced only through ada::parse. Found and fixed a genuine defect (four "
+            "parser exits skipped the check).",
+            "typestate dataflow (must-pass-through) with callee summaries + who-may-call + comparison-form census",
+            "DESIGN.md §5 C09", "'behaves as with no limit when it fits' is decided only through the strict-comparison rule"),
     "C11": ("proof",
             "Exhaustive table proof: each of the seven percent-encode bitmaps is compared with the Standard's set for all "
             "256 byte values, the hex[] table, the decode tables and the hex-digit predicate are checked entry by entry, "
@@ -27,7 +50,7 @@ NOT_APPLICABLE = {
            "no table, ordering, pairing or ownership fact whose breakage is necessary for a violation",
 }
 
-PENDING = {'C01': 'check not built yet in this round (see DESIGN.md §11 build order); not claimed until it is', 'C02': 'check not built yet in this round (see DESIGN.md §11 build order); not claimed until it is', 'C03': 'check not built yet in this round (see DESIGN.md §11 build order); not claimed until it is', 'C04': 'check not built yet in this round (see DESIGN.md §11 build order); not claimed until it is', 'C05': 'check not built yet in this round (see DESIGN.md §11 build order); not claimed until it is', 'C07': 'check not built yet in this round (see DESIGN.md §11 build order); not claimed until it is', 'C08': 'check not built yet in this round (see DESIGN.md §11 build order); not claimed until it is', 'C09': 'check not built yet in this round (see DESIGN.md §11 build order); not claimed until it is', 'C10': 'check not built yet in this round (see DESIGN.md §11 build order); not claimed until it is', 'C12': 'check not built yet in this round (see DESIGN.md §11 build order); not claimed until it is', 'C13': 'check not built yet in this round (see DESIGN.md §11 build order); not claimed until it is', 'C14': 'check not built yet in this round (see DESIGN.md §11 build order); not claimed until it is', 'C15': 'check not built yet in this round (see DESIGN.md §11 build order); not claimed until it is', 'C17': 'check not built yet in this round (see DESIGN.md §11 build order); not claimed until it is', 'C18': 'check not built yet in this round (see DESIGN.md §11 build order); not claimed until it is', 'C19': 'check not built yet in this round (see DESIGN.md §11 build order); not claimed until it is'}   # id -> reason, for properties whose check is not built yet
+PENDING = {'C02': 'check not built yet in this round (see DESIGN.md §11 build order); not claimed until it is', 'C04': 'check not built yet in this round (see DESIGN.md §11 build order); not claimed until it is', 'C05': 'check not built yet in this round (see DESIGN.md §11 build order); not claimed until it is', 'C07': 'check not built yet in this round (see DESIGN.md §11 build order); not claimed until it is', 'C08': 'check not built yet in this round (see DESIGN.md §11 build order); not claimed until it is', 'C10': 'check not built yet in this round (see DESIGN.md §11 build order); not claimed until it is', 'C12': 'check not built yet in this round (see DESIGN.md §11 build order); not claimed until it is', 'C13': 'check not built yet in this round (see DESIGN.md §11 build order); not claimed until it is', 'C14': 'check not built yet in this round (see DESIGN.md §11 build order); not claimed until it is', 'C15': 'check not built yet in this round (see DESIGN.md §11 build order); not claimed until it is', 'C17': 'check not built yet in this round (see DESIGN.md §11 build order); not claimed until it is', 'C18': 'check not built yet in this round (see DESIGN.md §11 build order); not claimed until it is', 'C19': 'check not built yet in this round (see DESIGN.md §11 build order); not claimed until it is'}   # id -> reason, for properties whose check is not built yet
 
 
 def main():
